@@ -20,19 +20,19 @@ CHECKS = {
    text="All message lengths 0..130 (0..1100 thorough) under several passphrases: decrypt(encrypt(m)) = m, equal plaintext gives equal ciphertext, the nonce depends on the key, every truncation, extension, other passphrase and every single-bit flip (all bits for ciphertexts <= 96 bytes) must be rejected, legacy-format boxes must open to their plaintext. End to end with V1NodeEncryptor: no node object contains a 16-byte marker stored as key or value, a wrong passphrase or one flipped bit in a node object yields errors, recommitting unchanged data stores nothing twice and never rewrites a name.",
    note="Behavioural only: no claim about cipher strength. Exhaustive only over bit positions of the listed short ciphertexts."),
  "C03": dict(level="exploration", design="§4 C03",
-   technique="runtime monitoring: deterministic request scheduler in the instrumented store (exhaustive DFS over version-namespace interleavings for two-client configurations, random priorities over all requests for 3-4 clients) + porcupine linearizability check of the recorded commit/open history against a grow-only set; -race build",
+   technique="runtime monitoring: deterministic request scheduler in the instrumented store (exhaustive DFS over version-namespace interleavings for two-client configurations, random priorities over all requests for 3-4 clients; some configurations with an injected failure of the read of a retired version) + porcupine linearizability check of the recorded commit/open history against a grow-only set; -race build",
    text="Commits and opens are recorded with call/return at the scheduler's logical time; each history must be linearizable as a grow-only set whose reads return exactly the current set (so an opener can neither miss a commit that completed before it began nor show a state such as the empty table), and after the clients stop a read-write and a read-only open must contain every acknowledged marker. Two-client configurations are enumerated completely at the granularity of root/ requests; larger ones are sampled.",
    note="Assumes atomic single-page LIST and immutable content-addressed node objects (asserted online); exhaustive per configuration only; porcupine timeouts are inconclusive."),
  "C04": dict(level="fault_enumeration", design="§4 C04",
-   technique="runtime monitoring with fault injection: crash after every mutating storage request of a commit (transaction, merge-on-open, vacuum), recovery opens compared with recorded before/after contents, bucket walk of current versions",
+   technique="runtime monitoring with fault injection: crash after every mutating storage request of a commit (transaction, merge-on-open, vacuum), plus for transactions one failure with rollback-and-retry on the same connection at every request and the connection deadline expiring at sampled requests; recovery opens compared with recorded before/after contents, bucket walk of current versions",
    text="For each subject the number K of mutating requests is measured fault-free, then every k in 0..K is executed: the client dies right after its k-th PUT/DELETE, the connection is abandoned, and a read-only open, a read-write recovery open and a further read-only open of the frozen bucket must succeed and show exactly the old or the new contents, the same in all three, the new ones if the commit had been acknowledged. Enumeration over k is complete per subject; subjects are sampled.",
    note="Crash model: whole-object atomic requests, prefix of the client's mutation sequence takes effect. Concurrent node PUTs of one flush make the prefix a sample of 'k of them landed'. Garbage nodes are allowed."),
  "C14": dict(level="fault_enumeration", design="§4 C14",
-   technique="runtime monitoring with fault injection: a failing (once/persistent) or deadline-blocked request at every request position of a target statement; result compared with the fault-free run; liveness watchdog on logical quiescence; recovery probes",
-   text="For 13 kinds of target statement (opens with merge, scans, lookups, writes incl. the REAL twin of stored INTEGER keys, commits, refresh, changes, vacuum) every request position up to 60 is faulted with a single error, a persistent error and (3 positions) a request blocking until the connection's deadline; each run must give an error or exactly the fault-free result, acknowledged writes must be visible to a fresh open afterwards, the process must survive, the statement must return, the connection's own un-refreshed view must show no trace of a failed statement, follow-up writes on that connection must publish complete versions that lose nothing, and the same and a new connection must work again after the fault clears.",
+   technique="runtime monitoring with fault injection: a failing (once/persistent; connection reset, 503, or truncated GET body) or deadline-blocked request at every request position of a target statement, including raced opens/refreshes that read retired versions from their second location; retries of failed writes; result compared with the fault-free run; liveness watchdog on logical quiescence; recovery probes",
+   text="For 19 kinds of target statement (opens with merge, scans, lookups, writes incl. the REAL twin of stored INTEGER keys, commits, refresh, changes, vacuum) every request position up to 60 is faulted with a single error, a persistent error and (3 positions) a request blocking until the connection's deadline; each run must give an error or exactly the fault-free result, acknowledged writes must be visible to a fresh open afterwards, the process must survive, the statement must return, the connection's own un-refreshed view must show no trace of a failed statement, follow-up writes on that connection must publish complete versions that lose nothing, and the same and a new connection must work again after the fault clears.",
    note="Transport fault = non-retryable request error; deadline fault = request blocks until the context is done (1-2 s). Hang verdict is logical: no request in flight and none for 30 s. NoSuchKey is not treated as a fault."),
  "C09": dict(level="exploration", design="§4 C09",
-   technique="runtime monitoring: dump equality across vacuum (same/fresh/historic opens), independent bucket walk of every retained version, crash injection after every mutating request of sampled vacuums, virtual clock through hook H3",
+   technique="runtime monitoring: dump equality across vacuum (same/fresh/historic opens), independent bucket walk of every retained version, crash and single-failure injection at every mutating request of sampled vacuums, returns to reclaimed content (same and other connection, node cache on in a slice), version-stamp monitor against the harness clock, virtual clock through hook H3",
    text="Histories built to share content-addressed nodes between old and new versions (insert-then-delete, revert, delete-all, earlier vacuums, merges) are vacuumed with cutoffs before/at/between/after the version stamps and delete times; rows through the same connection, a fresh connection and every earlier version created at or after the cutoff must be unchanged, every version still listed must reach only existing decodable nodes, later writes must work; half of the cases let write times lag behind the version clock so that markers are purged while all versions are retained, then purge a transient key and run a final vacuum with a cutoff after everything, re-applying all oracles; one case in three repeats the vacuum with a crash after every mutating request and checks the recovery opens.",
    note="Creation time = the stamp in the version object (handle's last open/refresh). The vacuuming handle has merged everything (vacuum next to unmerged forks older than the cutoff is documented as unsafe). After a crash, version objects the interrupted vacuum was about to remove are not counted as retained."),
  "C10": dict(level="exploration", design="§4 C10",
@@ -80,7 +80,7 @@ CHECKS = {
    text="Boundary-heavy and random key pairs/triples of all four storage classes: sign of Key.Order vs SQLite's '<,=,>' on the bound values, antisymmetry/transitivity/equality axioms, ORDER BY and point lookups on trees of entries_per_node 2..16 vs a native table, and SQLite-equal pairs (INT n/REAL n.0, +-0) inserted in both orders into trees of varying depth (second insert must be a constraint failure, no twin, no crash). Worker death or hang during a case is a violation.",
    note="Trusts SQLite's comparison as the reference order; NaN not generated (SQLite binds it as NULL); cross-writer twins (two writers inserting INT n and REAL n.0 concurrently) are not generated."),
  "C16": dict(level="exploration", design="§4 C16",
-   technique="runtime monitoring: independent offline decoder over the bucket after every commit + online immutability assertion in the instrumented store + cache-less re-read",
+   technique="runtime monitoring: independent offline decoder over the bucket after every commit + online immutability assertion in the instrumented store + cache-less re-read; failing PUTs during commits; replay-after-vacuum epilogue (node cache on/off)",
    text="Random write-heavy histories on the real extension (1-3 writers, all branch factors, transactions, rollbacks, merges); after every acknowledged commit the monitors decode the committed version from the bucket with an independent protobuf/JSON reader (links, order, size, height), compare every decoded entry (values, modification/status/column times, delete flags, tombstones) with the writer's in-memory tree and a cache-less read-only handle's scan with the writer's own scan, assert name->bytes immutability online, count PUTs of no-op commits, let single PUTs of commits fail now and then, and have a separate OS process read the final bucket. Exploration is the right level: the property quantifies over histories, which can only be sampled.",
    note="Trusts the in-memory object store (S3 whole-object atomicity), SQLite, and the generated proto package used by the decoder. Cache-on multi-level cases are covered by known finding D19."),
 }
